@@ -370,8 +370,94 @@ def _dominates_exits(h, flag_stmts):
     return False
 
 
+def transport_predicates(run, rid="R4"):
+    """Truth tables of is_timeout / is_comm_error (shared with C12 under a prefix): exactly the transport library's signals."""
+    P, A = run.P, run.A
+
+    def table(fn, atoms_of, spec, label, why):
+        g = A.cfg(fn, None)
+        ex = fn.params[0]
+        names = []
+
+        def atom(e):
+            r = atoms_of(e, ex)
+            if r is not None and r[0] not in names:
+                names.append(r[0])
+            return r
+        leaves = [lf for lf in Walker(A, fn, None, atom).walk(g.entry)]
+        n = 0
+        unknown = set()
+        for lf in leaves:
+            if lf.kind != "return" or lf.node.ast.value is None:
+                run.fail(rid, f"{fn.qualname}|shape|{lf.kind}", fn.loc(), f"{fn.qualname} does `{lf.kind}` instead of returning a verdict")
+                continue
+            v = lf.deep(lf.node.ast.value)
+            unk = sorted(k for k in lf.pc if k.startswith("?"))
+            unknown |= set(unk)
+            for val in completions({k: b for k, b in lf.pc.items() if not k.startswith("?")}, spec["atoms"], spec.get("feasible")):
+                n += 1
+                want = spec["fn"](val)
+                if isinstance(v, ast.Constant):
+                    got = bool(v.value)
+                else:
+                    ra = atoms_of(v, ex)
+                    got = (val.get(ra[0]) == ra[1]) if ra is not None and ra[0] in val else None
+                desc = ", ".join(f"{a}={'T' if val[a] else 'F'}" for a in spec["atoms"])
+                run.check(rid, got == want and not (got and unk), f"{label}[{desc}] = {want}", key=f"{fn.qualname}|table|{desc}", where=fn.loc(lf.node.ast),
+                          message=f"{fn.qualname}, case [{desc}]{' under the extra condition ' + str(unk) if unk else ''}: returns {got}, the transport library's "
+                                  f"signal set requires {want}. {why}")
+        run.floor(rid, f"{label} cases", n, spec.get("floor", 2 ** len(spec["atoms"])))
+
+    TO = P.method(P.cls("ledger.hsm2dongle.HSM2DongleTimeoutError"), "is_timeout")
+    CE = P.method(P.cls("ledger.hsm2dongle.HSM2DongleCommError"), "is_comm_error")
+
+    def to_atoms(e, ex):
+        cp = cmp_parts(e)
+        if cp is None:
+            if isinstance(e, ast.Call) and call_name(e) == "isinstance" and len(e.args) == 2 and norm(e.args[0]) == ex and norm(e.args[1]) == "CommException":
+                return None        # isinstance admits subclasses: not the exact-type test
+            return None
+        l, op, r = cp
+        lt, rt = norm(l), norm(r)
+        if op in ("==", "!=", "is", "is not") and {lt, rt} == {f"type({ex})", "CommException"}:
+            return ("TY", op in ("==", "is"))
+        if op in ("==", "!=") and lt == f"{ex}.sw":
+            ok, v = try_fold(P, r, TO, None)
+            if ok and v == 0x6F00:
+                return ("SW", op == "==")
+        if op in ("==", "!=") and lt == f"{ex}.message" and isinstance(r, ast.Constant) and r.value == "Timeout":
+            return ("MSG", op == "==")
+        return None
+    table(TO, to_atoms, {"atoms": ["TY", "SW", "MSG"], "fn": lambda v: v["TY"] and v["SW"] and v["MSG"]}, "is_timeout",
+          "Anything else counted as a time-out is answered device-unreachable without a reconnection, and on a stream transport the late answer would be "
+          "read by the next exchange.")
+
+    def ce_atoms(e, ex):
+        if isinstance(e, ast.Call) and call_name(e) == "isinstance" and len(e.args) == 2 and norm(e.args[0]) == ex and norm(e.args[1]) == "HSM2DongleCommError":
+            return ("ISCE", True)
+        cp = cmp_parts(e)
+        if cp is None:
+            return None
+        l, op, r = cp
+        lt, rt = norm(l), norm(r)
+        if op in ("==", "!=", "is", "is not") and lt == f"type({ex})" and rt in ("BaseException", "OSError"):
+            return ("TB" if rt == "BaseException" else "TO", op in ("==", "is"))
+        if op in ("==", "!=") and lt == f"len({ex}.args)" and isinstance(r, ast.Constant) and r.value == 1:
+            return ("L1", op == "==")
+        if op in ("==", "!=") and lt == f"{ex}.args[0]" and isinstance(r, ast.Constant) and r.value in ("Error while writing", "read error"):
+            return ("MW" if r.value == "Error while writing" else "MR", op == "==")
+        return None
+    table(CE, ce_atoms, {"atoms": ["TB", "TO", "L1", "MW", "MR", "ISCE"],
+                         "fn": lambda v: (v["TB"] and v["L1"] and v["MW"]) or (v["TO"] and v["L1"] and v["MR"]) or v["ISCE"],
+                         # one exact type at most, one first argument at most, an HSM2DongleCommError is neither a bare BaseException nor an OSError
+                         "feasible": lambda v: not (v["TB"] and v["TO"]) and not (v["MW"] and v["MR"]) and not (v["ISCE"] and (v["TB"] or v["TO"])),
+                         "floor": 20}, "is_comm_error",
+          "A link failure that is not recognised is not followed by a reconnection; something else recognised as one triggers needless bring-ups.")
+
+
 def _classifier(run, E):
     P, A = run.P, run.A
+    transport_predicates(run, "R4")
     run.rule("R4", "_send_command: the transport exchange is guarded by a handler catching BaseException "
              "(ledgerblue signals a write failure with a bare BaseException); inside it the order is "
              "user-defined status -> timeout -> comm error -> generic; predicate literals equal what "
